@@ -100,7 +100,11 @@ fn main() {
 
 fn run_property(id: &str, tier: &str, seed: i64) -> Vec<Part> {
     let mut parts = Vec::new();
-    if let Some(chk) = props::sim_check(id, tier, seed) {
+    if let Some(mut chk) = props::sim_check(id, tier, seed) {
+        if let Ok(only) = std::env::var("VERIF_ONLY") {
+            chk.scenarios.retain(|s| s.name.contains(&only));
+            eprintln!("[sim] VERIF_ONLY={:?}: {} scenarios kept (debugging aid, not a verdict)", only, chk.scenarios.len());
+        }
         let mut limits = chk.limits;
         if let Ok(w) = std::env::var("VERIF_WORKERS") {
             limits.workers = w.parse().unwrap_or(limits.workers);
